@@ -67,8 +67,9 @@ def models_and_replay(chk, tier):
     for t in trs:
         if "machinery" in t:
             raise C.Machinery(t["machinery"])
-        if "script_mismatch" in t:
-            raise C.Machinery("scripted generator out of step with the implementation: %s %s" % (t["cfg"], t["script_mismatch"]))
+    # an implementation that consumes the scripted draws differently from the behaviour is not a harness failure: its trace
+    # is judged by Trace_VROOM like any other, and its credited path is compared with the behaviour's below
+    chk.notes["replay_runs_that_consumed_the_scripted_draws_differently"] = sum(1 for t in trs if "script_mismatch" in t)
     chk.validate("Trace_VROOM.tla", "Trace_VROOM.cfg", trs, "vreplay", own=["vroom."], chunk=200, nontrivial=lambda t: True)
     agree = 0
     for t in trs:
